@@ -105,6 +105,14 @@ class C03(PureCheck):
                 continue
             seen.add(key)
             yield {"op": "stream", "k1": list(k1), "k2": list(k2), "enc": enc}
+        # the same three codecs under the other names a locale may report them by
+        for alias in (1, 2, 3):
+            for enc in encs:
+                yield {"op": "node", "buf": [], "enc": enc, "alias": alias}
+                yield {"op": "node", "buf": [27], "enc": enc, "alias": alias}
+                yield {"op": "node", "buf": [27, 91], "enc": enc, "alias": alias}
+                for k1, k2 in ((b"\x80", b"b"), (b"\xe9", b"\x1b[A"), (b"\x1b[A", b"\xe9"), (b"a", b"\xff"), ("é".encode(), b"x")):
+                    yield {"op": "stream", "k1": list(k1), "k2": list(k2), "enc": enc, "alias": alias}
         # end to end over a pipe (a paste: everything has arrived before the first request): letters with one
         # multi-byte keypress placed at every offset around the 1024-byte read boundary, and short bursts
         for enc in encs:
@@ -125,6 +133,13 @@ class C03(PureCheck):
             yield {"op": "scalar", "cp": c}
 
     def execute(self, inp):
+        keylib.ALIAS = inp.get("alias", 0)
+        try:
+            return self._execute_case(inp)
+        finally:
+            keylib.ALIAS = 0
+
+    def _execute_case(self, inp):
         T = self.tables
         if inp["op"] == "node":
             return T.node_event(inp["buf"], inp["enc"])
